@@ -15,14 +15,14 @@ checks = {
    text="Breadth-first search to closure over all histories of 7 report variants per (device, slot) on the real server; every transition checked against the set-based rule of the property and the reference model, every distinct state through all three public observables. Order independence is checked (permutations must land in one state), not assumed.",
    note="Small alphabet (2 devices, 3-5 slots, 7 variants); values outside it are not covered. Capacity arithmetic overflow for capacities > 2^64/135 not exercised.", ref="3 C02"),
  "C03": dict(engine="E2", cat="model_checking", tech="explicit-state BFS over report/clock/rotation/query histories on the real server vs reference model and independent encoder",
-   text="BFS (depth-bounded) over histories of reports at window edges, clock moves, rotation-loop ticks, forced rotations, impact rounds, bans and statistics requests (including insert_false_negatives with the random source answering 'always'); at every distinct state every archived week on disk and through the API must equal the model, verify under the server key over an independently written encoding, and be identical to its first appearance.",
-   note="Depth-bounded (4 quick / 5 thorough); WattTime is the test-mode stub; device order inside a record is Go map order and compared as a multiset.", ref="3 C03"),
+   text="BFS (depth-bounded) over histories of reports at window edges, clock moves, rotation-loop ticks, forced rotations, impact rounds, bans and statistics requests (including insert_false_negatives with the random source answering 'always'); at every distinct state every archived week on disk and through the API must equal the model, verify under the server key over an independently written encoding, and be identical to its first appearance (also after false-negatives requests and restart;restart). At every distinct state every held week is also requested under every spelling a parser might normalise (+k*2^32, +2^64, signs, blanks, hex, fraction, exponent, duplicated parameter): only a plain aligned non-future decimal below 2^32 may be answered, labelled with that number. Devices are named 0, 2 and 4294967295.",
+   note="Depth-bounded (3 quick / 4 thorough); WattTime is the test-mode stub; device order inside a record is Go map order and compared as a multiset.", ref="3 C03"),
  "C04": dict(engine="E2", cat="model_checking", tech="explicit-state BFS over server histories with restart;restart differential at every distinct state",
-   text="BFS over histories of reports, bans, rotations, impact rounds and clock moves; at every distinct state the server is restarted twice on its directory: start must succeed, the recovered snapshot must equal the model (with the catch-up rotations the implementation chose), archived weeks must be byte-identical, the second restart must change nothing, and all public observables must agree afterwards.",
+   text="BFS over histories of reports, bans, rotations, impact rounds and clock moves; at every distinct state the server is restarted twice on its directory: start must succeed, the recovered snapshot must equal the model (with the catch-up rotations the implementation chose), archived weeks must be byte-identical, the second restart must change nothing, and all public observables must agree afterwards. Devices are named 0 (zero value), 2 and 4294967295.",
    note="Authorized-server list, migration orders and live-window impact rates are documented as not persisted and are dropped by the model at restart.", ref="3 C04"),
  "C06": dict(engine="E2", cat="model_checking", tech="explicit-state BFS over authorization/report/restart histories through the JSON endpoint vs reference model",
-   text="BFS over histories of authorizations (valid, duplicate, conflicting in capacity / debt / key / reusing another device's key, flipped signature bit, temp-key, server-key and foreign-GCA signatures), reports, rotation and restart; status codes, device set, bans, public-key index consistency and every public observable compared with the model at every state; the server's own CheckInvariants runs at every Close.",
-   note="Depth-bounded (4 quick / 6 thorough). Latitude/longitude fixed to one finite pair (JSON float round trip is C15's business).", ref="3 C06"),
+   text="BFS over histories of authorizations (valid, duplicate, conflicting in capacity / debt / key / reusing another device's key, flipped signature bit, temp-key, server-key and foreign-GCA signatures), reports, rotation and restart; status codes, device set, bans, public-key index consistency and every public observable compared with the model at every state; the server's own CheckInvariants runs at every Close. The clock stands in the second week of the live window (device 0 reports there, device 2 in the first week). Plus, for every field of an authorization (incl. +0/-0, subnormal and 1-ulp float differences): first, identical resubmission, validly signed second one differing in that field only, original again, restart.",
+   note="Depth-bounded (4 quick / 6 thorough).", ref="3 C06"),
  "C07": dict(engine="E2+E1", cat="model_checking", tech="explicit-state BFS over registration/order histories; all interleavings of concurrent registrations under the cooperative scheduler",
    text="Sequential: BFS to closure from an unregistered server over registrations and GCA-authority orders signed by the temp key, two candidate GCA keys and the server key, with restarts. Concurrent: every interleaving at lock points of competing registrations and an authorization. Exactly one registration may win, the file equals the winner, only the winner's orders are honoured.",
    note="HTTP transport is bypassed (handlers are called through the server's own mux on the calling goroutine).", ref="3 C07"),
@@ -34,8 +34,8 @@ checks = {
    note="Virtual time replaces the wall clock; real-scheduler starvation is out of reach.", ref="3 C19"),
 
  "C05": dict(engine="E3", cat="fault_enumeration", tech="crash-state enumeration: every mutating file-system step of every short operation history, recovery by the real constructor vs model of the durable prefix",
-   text="Every history of length <= 4 (quick) / 6 (thorough) over {register, authorize, conflicting authorize, first report, second report, rotate, restart} after a first start is run once on the real server with the file-system shim copying the directory after every mutating step (ioutil.WriteFile split into truncate and write). Every distinct crash image is recovered by the real NewGCAServer: it must start, equal the model of the completed operations with the in-flight operation either in or out, keep a usable key pair, and still accept its GCA's registration / orders.",
-   note="Process-crash model only: completed system calls persist. Torn writes inside one write call and SIGKILL at random instants are not covered.", ref="3 C05"),
+   text="Every history of length <= 4 (quick) / 6 (thorough) over {register, authorize, conflicting authorize, first report, second report, rotate, restart} after a first start, fleets of 3-5 devices, and logs long enough for a report (52nd) and an authorization (28th) to straddle a page boundary, is run once on the real server with the file-system shim copying the directory after every mutating step (ioutil.WriteFile split into truncate and write; a write that crosses a 4096-byte boundary split into one step per page). Every distinct crash image is recovered by the real NewGCAServer: it must start, equal the model of the completed operations with the in-flight operation either in or out, keep a usable key pair, still accept its GCA's registration / orders and a report, and then restart once more without losing anything.",
+   note="Process-crash model: completed system calls persist; a write crossing a page boundary persists page by page (measured on this kernel). Tears inside a page, loss of completed writes (power failure) and SIGKILL at random instants are not covered.", ref="3 C05"),
  "C08": dict(engine="E2", cat="fault_enumeration", tech="exhaustive enumeration of loss/duplication/sync-failure patterns between a real client and a real server over a scripted network under virtual time",
    text="Every combination of per-slot reading x fate of the original datagram (delivered, dropped, duplicated) x earlier sync round (none, dial failure, malformed reply, all retransmissions dropped, delivered) x (nothing, week rotation, server restart), then a fault-free round, on a real client and a real server in one process; afterwards all delivered datagrams are re-delivered in reverse order. Every slot with a reading must be held by the server with the right value and not banned, and every datagram ever emitted for a slot must be byte-identical to the first.",
    note="3 adjacent slots chosen so that mirrored/shifted bit mappings collide; readings fit 32 signed bits (the property's restriction); delays are not modelled.", ref="3 C08"),
@@ -43,20 +43,20 @@ checks = {
    text="BFS (depth 4 quick / 5 thorough) over histories of energy-file edits, send-loop ticks (the loop's real timer), client restarts and sync rounds against a server that reports nothing received; every datagram on the wire is logged; per slot all datagrams with power not in {0,1} must be identical, no history cell may change once non-zero. Store level: BFS over save sequences vs a map model.",
    note="One known finding (values outside int32) is listed in known_findings.json and suppressed by signature.", ref="3 C09"),
  "C10": dict(engine="E4", cat="exploration", tech="exhaustive mutation enumeration (all single-bit flips, all truncations, re-signings, timestamp shifts) of real sync replies for a family of real server states, real handler -> real parser",
-   text="For 11 real server states the real handler's reply goes through the real client parser and must equal the server snapshot; then every single-bit flip, every truncation, re-signing under 4 other keys, +-24h / +-24h+1s timestamps, foreign device binding, unsigned server entries and defective migration orders must be rejected without panic or state change; reference-encoded replies with arbitrary offsets, every single bitfield bit and server lists must parse to exactly those values.",
+   text="For 13 real server states the real handler's reply goes through the real client parser and must equal the server snapshot; then every single-bit flip, every truncation, re-signing under 4 other keys, +-24h / +-24h+1s timestamps, foreign device binding, unsigned server entries and defective migration orders must be rejected without panic or state change; for every entry of the genuine list (and an accepted migration order), after the client has accepted it, every single-field alteration under the same signature bytes must be rejected; reference-encoded replies with arbitrary offsets, every single bitfield bit and server lists must parse to exactly those values.",
    note="Server states are a finite family; quick strides bit flips by 7 for the two largest replies.", ref="3 C10"),
  "C11": dict(engine="E4", cat="exploration", tech="exhaustive enumeration of reply shapes (every length 0..800, rogue-signed bodies) and of per-attempt outcome sequences of the sync round on the real client",
-   text="(a) ~5000 reply shapes - every length as zeros, cut genuine reply, short read, bodies signed with the contacted server's real key - against the real parser: no panic, mutex free, state unchanged. (b) every sequence of per-attempt outcomes for 1..3 servers with none/one/all banned through the real sync round, then a send-loop tick, a second round and a restart: mutex free, reports still emitted, banned servers never contacted, bans never forgotten or lost on restart.",
+   text="(a) ~5000 reply shapes - every length as zeros, cut genuine reply, short read, bodies signed with the contacted server's real key - against the real parser: no panic, mutex free, state unchanged. (b) every sequence of per-attempt outcomes for 1..3 servers with none/one/all banned (and the all-fail / fifth-attempt cases for 4-6 servers), and rogue list orders (ban-then-authorization and authorization-then-ban of an unknown and of a known server inside one accepted reply), through the real sync round, then a send-loop tick, a second round and a restart: mutex free, reports still emitted, banned servers never contacted, bans (configured or carried by an accepted reply) never forgotten or lost on restart, the reported round result equals 'an attempt succeeded'.",
    note="Delays are represented by refusal/reset (virtual time); Go map order inside the client is observed, not controlled. Includes the static lock-path search (vlock) over package client and glow.", ref="3 C11"),
  "C12": dict(engine="E4", cat="exploration", tech="exhaustive enumeration of a request grid (handlers x methods x query/body variants, sync requests, datagram alphabet) over clock configurations on the real server; shutdown scenarios on real sockets",
-   text="Per clock configuration, with an authorized peer that is down: every handler x {GET, POST, PUT} x query/body variants through the server's own mux, sync requests of 0..4 bytes, the C01 datagram alphabet, an impact round and a rotation; after each one both mutexes must be free and a probe request must answer. Close() with 0/1/3 idle or half-sent TCP connections must return within 4x serverShutdownTime (violation only with a goroutine dump showing the blocked handler).",
+   text="Per clock configuration, with an authorized peer that is down: every handler x {GET, POST, PUT} x query/body variants through the server's own mux, sync requests of 0..4 bytes, the C01 datagram alphabet, an impact round and a rotation; after each one both mutexes must be free and a probe request must answer. Ten crash-only interleaving scenarios (every kind of untrusted request against a ban or a rotation that removes what its handler looked up; every schedule at lock acquisitions): no panic, no deadlock, no lock left held. A volume run beyond the bounded in-memory lists. Close() with 0/1/3 idle or half-sent TCP connections must return within 4x serverShutdownTime (violation only with a goroutine dump showing the blocked handler).",
    note="/geo-stats only up to parameter validation; production-only WattTime paths cannot run offline; net/http internals trusted.", ref="3 C12"),
  "C13": dict(engine="E1", cat="model_checking", tech="stateless exploration of all thread interleavings at lock acquisitions of the real server under a cooperative scheduler, preemption-bounded; sequential-orders differential oracle; separate free-running -race pass",
-   text="11 scenarios of 2-4 threads (impact job, rotation, reports, bans, authorizations, sync, statistics, registration, server authorization) are explored on the real server for every schedule with <= 2 preemptions (quick) / unbounded (thorough). Oracle: no panic, no deadlock, all mutexes free, CheckInvariants, and (observations, final state) equals the outcome of one of the sequential orders run on fresh instances. The same bodies run free under -race; a report is a violation.",
-   note="Scheduling points are lock acquisitions; unsynchronised accesses are only visible to the race pass (sampling, auxiliary). Static lock-path analysis (E5) was not built.", ref="3 C13"),
+   text="15 scenarios of 2-4 threads (impact job, rotation, reports, bans, authorizations, sync, statistics, registration, server authorization) are explored on the real server for every schedule with <= 2 preemptions (quick) / unbounded (thorough). Oracle: no panic, no deadlock, all mutexes free, CheckInvariants, and (observations, final state) equals the outcome of one of the sequential orders run on fresh instances. The same bodies run free under -race; a report is a violation.",
+   note="Scheduling points are lock acquisitions; unsynchronised accesses are only visible to the race pass (sampling, auxiliary). Includes the static lock-path search (vlock, E5) over package server.", ref="3 C13"),
  "C14": dict(engine="E1", cat="model_checking", tech="stateless exploration of interleavings with file-system calls as scheduling points: archive handler vs write bursts; every produced zip inspected",
-   text="The archive handler runs against four write bursts with every open/read/write/create as a scheduling point (<= 2 preemptions quick, 3 thorough); every zip produced is checked for record-aligned prefixes, dependency closure under the archived keys, the exact public key entry and absence of the private key. The rate limit is driven at the window edges under virtual time.",
-   note="Preemption-bounded; log-file writes are not scheduling points.", ref="3 C14"),
+   text="The archive handler runs against six write bursts with every open/read/write/create as a scheduling point and every append that crosses a page boundary visible page by page (<= 2 preemptions quick, 3 thorough); every zip produced is checked for record-aligned prefixes, dependency closure under the archived keys, the exact public key entry and absence of the private key. A BFS over histories of valid, conflicting and forged submissions takes an archive at rest in every distinct state (same oracle; archived file = complete file). The rate limit: every request sequence up to depth 7 over window-edge spacings under virtual time through the handler.",
+   note="Preemption-bounded; log-file writes are not scheduling points; tears inside a page are not modelled.", ref="3 C14"),
  "C15": dict(engine="E4", cat="exploration", tech="exhaustive enumeration of per-field boundary products, all lengths and all single-bit flips against independently written reference encoders",
    text="Boundary products for every structure against independent little-endian encoders incl. the ASCII type prefix; decode(encode(v)) = v; every length around the valid one refused; JSON transport identity; every single-bit flip of message, signature and key and the algebraic signature variants fail verification; signing is deterministic; all signing-byte strings of the corpus are pairwise distinct across values and types.",
    note="Field values outside the boundary alphabet are not covered; go-ethereum secp256k1 is trusted.", ref="3 C15"),
@@ -64,7 +64,7 @@ checks = {
    text="All CSV files of 0..2 rows from 7 timestamps x 14 readings in 8 shapes x 9 calibration settings are read by the real reader of a real client and compared with an independently written rule (skip / sentinel 2 / sentinel 3 / scaled, truncated, two's complement); malformed calibration must be refused by NewClient, never crash.",
    note="Timestamps at or beyond genesis+2^32 s are outside the stated domain; NaN/Inf/overflow only checked for absence of a crash.", ref="3 C16"),
  "C17": dict(engine="E2", cat="model_checking", tech="explicit-state BFS over server-authorization posts on the real server and over sync-reply histories (lists, migrations, restarts) on the real client vs models",
-   text="Server side: BFS over signed and unsigned server-authorization posts; list compared with the model after every transition. Client side: BFS over sync rounds against scripted servers answering with 11 list/migration variants and client restarts; client state and its three files compared with a client model after every history.",
+   text="Server side: BFS over signed and unsigned server-authorization posts; list compared with the model after every transition. Client side: BFS over sync rounds against scripted servers answering with 15 list/migration variants (incl. one key listed twice: forged after genuine, genuine ban before the genuine older authorization) and client restarts; client state and its three files compared with a client model after every history.",
    note="Depth-bounded (client side 4 quick / 5 thorough).", ref="3 C17"),
  "C20": dict(engine="E4", cat="exploration", tech="exhaustive enumeration of the timeslot domain in a production-tag build; explicit-state exploration of the rotation cadence with measured parameters, model traces replayed on the real rotation loop",
    text="Production binary: every timeslot 0..14316557 at three instants (thorough: every second of the 2^32-second domain) for exact slot, round trip, monotonicity and pre-genesis refusal; production constants and CurrentTimeslot under the shimmed clock. Live server: acceptance of own-key reports at every distance -434..+434 at both uint32 extremes. Cadence: all ~42k states (now-offset, timer phase) under the production period with trigger/half-width/window measured from the implementation, invariant 'acceptable reports stay inside the window'; 28 model traces replayed against the real loop.",
